@@ -83,21 +83,23 @@ Record step_hyps (s : fsys) (sv : sview) : Prop := {
   sh_root : node_is_dir (f_heap s) (v_root (sv_view sv)) = true
 }.
 
-(* the walk to "/c1/.../cn" is inside the covered domain: proper names, at most 40 links (the kernel does
-   not answer ELOOP), and neither model runs out of its fuel (WalkBudget.v gives size conditions for that) *)
+(* the walk to "/c1/.../cn" is inside the covered domain: proper names, neither model runs out of its fuel
+   (WalkBudget.v gives size conditions for that), and - Lstat mode only - not the corner [lstat_corner] of C04
+   (a final link reached after exactly 40 links; vacuous for the following modes) *)
 Definition path_ok (s : fsys) (sv : sview) (slm : slmode) (cs : list str) : Prop :=
   Forall good_comp cs /\
   klookup s sv false (follow_of slm) (abs_path cs) <> WErr EFUEL /\
-  klookup s sv false (follow_of slm) (abs_path cs) <> WErr ELOOP /\
-  sr_err (search_node s (sv_view sv) (abs_path cs) slm) <> EFuel.
+  sr_err (search_node s (sv_view sv) (abs_path cs) slm) <> EFuel /\
+  ~ lstat_corner (f_heap s) slm (search_node s (sv_view sv) (abs_path cs) slm)
+                 (klookup s sv false (follow_of slm) (abs_path cs)).
 
 Lemma resolve (s : fsys) (sv : sview) (slm : slmode) (cs : list str) :
   step_hyps s sv -> path_ok s sv slm cs ->
   walk_rel (f_heap s) (v_user (sv_view sv)) (v_root (sv_view sv)) (precise_of slm)
     (search_node s (sv_view sv) (abs_path cs) slm) (klookup s sv false (follow_of slm) (abs_path cs)).
 Proof.
-  intros [Hos Hadm Hwf Hlc Hrd] (Hg & Hk1 & Hk2 & Hnf).
-  apply (sym_bridge_lookup s sv slm cs Hos Hwf Hlc Hrd); auto.
+  intros [Hos Hadm Hwf Hlc Hrd] (Hg & Hk1 & Hnf & Hnc).
+  destruct (sym_bridge_lookup s sv slm cs Hos Hwf Hlc Hrd Hg Hk1 Hnf) as [B|B]; [exact B|contradiction].
 Qed.
 
 Lemma werr_cases (e : ekind) (k : N) :
@@ -141,7 +143,7 @@ Theorem step_stat (s : fsys) (sv : sview) (slm : slmode) (cs : list str) :
   stat_sim (proj_res Linux (stat_gen slm s (sv_view sv) (abs_path cs)))
            (k_stat (follow_of slm) s sv (abs_path cs)).
 Proof.
-  intros H Hp. pose proof (resolve s sv slm cs H Hp) as R. destruct Hp as (_ & _ & _ & Hnf).
+  intros H Hp. pose proof (resolve s sv slm cs H Hp) as R. destruct Hp as (_ & _ & Hnf & _).
   unfold stat_gen, k_stat.
   destruct (klookup s sv false (follow_of slm) (abs_path cs)) as [par kind name n|par name md| |e]; cbn [walk_rel] in R.
   - destruct R as (R1 & R2 & R3 & _). rewrite R2, R1. cbn [is_file_exists negb].
@@ -158,7 +160,7 @@ Theorem step_readlink (s : fsys) (sv : sview) (cs : list str) :
   step_hyps s sv -> path_ok s sv SlLstat cs ->
   proj_res Linux (readlink s (sv_view sv) (abs_path cs)) = k_readlink s sv (abs_path cs).
 Proof.
-  intros H Hp. pose proof (resolve s sv SlLstat cs H Hp) as R. destruct Hp as (_ & _ & _ & Hnf).
+  intros H Hp. pose proof (resolve s sv SlLstat cs H Hp) as R. destruct Hp as (_ & _ & Hnf & _).
   unfold readlink, k_readlink. change (follow_of SlLstat) with false in R.
   unfold win. rewrite (sh_os _ _ H). cbn [ostype_eqb].
   destruct (klookup s sv false false (abs_path cs)) as [par kind name n|par name md| |e]; cbn [walk_rel] in R.
@@ -175,7 +177,7 @@ Theorem step_chtimes (s : fsys) (sv : sview) (cs : list str) :
   step_hyps s sv -> path_ok s sv SlEval cs ->
   proj_res Linux (chtimes s (sv_view sv) (abs_path cs)) = k_utimes s sv (abs_path cs).
 Proof.
-  intros H Hp. pose proof (resolve s sv SlEval cs H Hp) as R. destruct Hp as (_ & _ & _ & Hnf).
+  intros H Hp. pose proof (resolve s sv SlEval cs H Hp) as R. destruct Hp as (_ & _ & Hnf & _).
   unfold chtimes, k_utimes. change (follow_of SlEval) with true in R.
   destruct (klookup s sv false true (abs_path cs)) as [par kind name n|par name md| |e]; cbn [walk_rel] in R.
   - destruct R as (R1 & R2 & R3 & _). rewrite R2, R1. cbn [is_file_exists negb].
@@ -230,7 +232,7 @@ Theorem step_chmod (s : fsys) (sv : sview) (cs : list str) (mode : N) :
   (fst (chmod s (sv_view sv) (abs_path cs) mode), proj_res Linux (snd (chmod s (sv_view sv) (abs_path cs) mode)))
   = k_chmod s sv (abs_path cs) mode.
 Proof.
-  intros H Hp. pose proof (resolve s sv SlEval cs H Hp) as R. destruct Hp as (_ & _ & _ & Hnf).
+  intros H Hp. pose proof (resolve s sv SlEval cs H Hp) as R. destruct Hp as (_ & _ & Hnf & _).
   pose proof (resolve_nosym s sv SlEval cs) as Hns.
   unfold chmod, k_chmod. change (follow_of SlEval) with true in R.
   destruct (klookup s sv false true (abs_path cs)) as [par kind name n|par name md| |e]; cbn [walk_rel] in R.
@@ -250,7 +252,7 @@ Theorem step_truncate (s : fsys) (sv : sview) (cs : list str) (size : Z) :
   (fst (truncate s (sv_view sv) (abs_path cs) size), proj_res Linux (snd (truncate s (sv_view sv) (abs_path cs) size)))
   = k_truncate s sv (abs_path cs) size.
 Proof.
-  intros H Hp. pose proof (resolve s sv SlEval cs H Hp) as R. destruct Hp as (_ & _ & _ & Hnf).
+  intros H Hp. pose proof (resolve s sv SlEval cs H Hp) as R. destruct Hp as (_ & _ & Hnf & _).
   unfold truncate, k_truncate, win. rewrite (sh_os _ _ H). cbn [ostype_eqb negb]. rewrite andb_true_r.
   destruct (Z.ltb size 0) eqn:Hsz; [reflexivity|].
   change (follow_of SlEval) with true in R.
@@ -336,7 +338,7 @@ Theorem step_mkdir (s : fsys) (sv : sview) (w : list str) (cl : str) (perm : N) 
   (fst (mkdir s (sv_view sv) p perm), proj_res Linux (snd (mkdir s (sv_view sv) p perm))) = k_mkdir s sv p perm.
 Proof.
   intros H Hp Hsg p. pose proof (resolve s sv SlLstat (w ++ [cl]) H Hp) as R.
-  destruct Hp as (Hg & Hk1 & _ & Hnf). change (follow_of SlLstat) with false in R, Hk1. change (precise_of SlLstat) with true in R.
+  destruct Hp as (Hg & Hk1 & Hnf & _). change (follow_of SlLstat) with false in R, Hk1. change (precise_of SlLstat) with true in R.
   destruct (klookup_pm s sv false w cl Hg Hk1) as (Hkn & Hkg & Hpm).
   unfold p. rewrite (mkdir_nonempty s (sv_view sv) _ perm (abs_path_nonempty _)). cbv zeta.
   unfold k_mkdir. rewrite Hpm. unfold no_setgid_parent in Hsg.
@@ -365,7 +367,7 @@ Theorem step_symlink (s : fsys) (sv : sview) (w : list str) (cl : str) (t : str)
   = k_symlink s sv (clean Linux t) p.
 Proof.
   intros H Hp Hsg p. pose proof (resolve s sv SlLstat (w ++ [cl]) H Hp) as R.
-  destruct Hp as (Hg & Hk1 & _ & Hnf). change (follow_of SlLstat) with false in R, Hk1. change (precise_of SlLstat) with true in R.
+  destruct Hp as (Hg & Hk1 & Hnf & _). change (follow_of SlLstat) with false in R, Hk1. change (precise_of SlLstat) with true in R.
   destruct (klookup_pm s sv false w cl Hg Hk1) as (Hkn & Hkg & Hpm).
   unfold p, symlink, k_symlink. rewrite Hpm. unfold no_setgid_parent in Hsg.
   pose proof (klookup_final s sv false (w ++ [cl]) Hg) as Hfin.
@@ -444,7 +446,7 @@ Theorem step_remove (s : fsys) (sv : sview) (w : list str) (cl : str) :
   (fst (remove s (sv_view sv) p), proj_res Linux (snd (remove s (sv_view sv) p))) = go_remove s sv p.
 Proof.
   intros H Hp Hss p. pose proof (resolve s sv SlLstat (w ++ [cl]) H Hp) as R.
-  destruct Hp as (Hg & Hk1 & _ & Hnf). change (follow_of SlLstat) with false in R, Hk1. change (precise_of SlLstat) with true in R.
+  destruct Hp as (Hg & Hk1 & Hnf & _). change (follow_of SlLstat) with false in R, Hk1. change (precise_of SlLstat) with true in R.
   destruct (klookup_pm s sv false w cl Hg Hk1) as (Hkn & Hkg & Hpm).
   unfold p, remove, go_remove, k_unlink, k_rmdir. rewrite Hpm.
   pose proof (klookup_final s sv false (w ++ [cl]) Hg) as Hfin.
@@ -488,7 +490,7 @@ Theorem step_link (s : fsys) (sv : sview) (co w : list str) (cl : str) :
 Proof.
   intros H Hpo Hp Hns o p.
   pose proof (resolve s sv SlLstat co H Hpo) as Ro. pose proof (resolve s sv SlLstat (w ++ [cl]) H Hp) as R.
-  destruct Hpo as (Hgo & _ & _ & Hnfo). destruct Hp as (Hg & Hk1 & _ & Hnf).
+  destruct Hpo as (Hgo & _ & Hnfo & _). destruct Hp as (Hg & Hk1 & Hnf & _).
   change (follow_of SlLstat) with false in Ro, R, Hk1. change (precise_of SlLstat) with true in Ro, R.
   destruct (klookup_pm s sv false w cl Hg Hk1) as (Hkn & Hkg & Hpm).
   unfold o, p, link, k_link, win. rewrite (sh_os _ _ H). cbn [ostype_eqb]. unfold not_symlink in Hns.
@@ -538,7 +540,7 @@ Theorem step_chown (s : fsys) (sv : sview) (slm : slmode) (cs : list str) (uid g
    proj_res Linux (snd (chown_gen slm s (sv_view sv) (abs_path cs) uid gid)))
   = k_chown (follow_of slm) s sv (abs_path cs) uid gid.
 Proof.
-  intros H Hp Hns. pose proof (resolve s sv slm cs H Hp) as R. destruct Hp as (_ & _ & _ & Hnf).
+  intros H Hp Hns. pose proof (resolve s sv slm cs H Hp) as R. destruct Hp as (_ & _ & Hnf & _).
   unfold chown_gen, k_chown, win, no_setid in *. rewrite (sh_os _ _ H), (sh_admin _ _ H). cbn [ostype_eqb negb].
   rewrite andb_false_r. cbn [orb].
   destruct (klookup s sv false (follow_of slm) (abs_path cs)) as [par kind name n|par name md| |e]; cbn [walk_rel] in R.
@@ -567,7 +569,7 @@ Theorem step_chdir (s : fsys) (sv : sview) (cs : list str) :
   | _, _ => False
   end.
 Proof.
-  intros H Hp. pose proof (resolve s sv SlEval cs H Hp) as R. destruct Hp as (_ & _ & _ & Hnf).
+  intros H Hp. pose proof (resolve s sv SlEval cs H Hp) as R. destruct Hp as (_ & _ & Hnf & _).
   unfold chdir, k_chdir, win. rewrite (sh_os _ _ H). cbn [ostype_eqb]. change (follow_of SlEval) with true in R.
   destruct (klookup s sv false true (abs_path cs)) as [par kind name n|par name md| |e]; cbn [walk_rel] in R.
   - destruct R as (R1 & R2 & R3 & _). rewrite R2, R1. cbn [is_file_exists negb]. unfold node_is_dir.
@@ -581,6 +583,7 @@ Qed.
 
 (* ---- ReadFile / ReadDir (OpenFile with O_RDONLY, then the handle methods) --------------------------------------- *)
 Lemma open_rdonly (s : fsys) (v : view) (vi : nat) (name : str) (perm : N) :
+  name <> [] ->
   open_file s v vi name 0 perm =
     let r := search_node s v name SlEval in
     let e := sr_err r in
@@ -600,10 +603,11 @@ Lemma open_rdonly (s : fsys) (v : view) (vi : nat) (name : str) (perm : N) :
          | None => (s, inl RPanic)
          end.
 Proof.
-  unfold open_file. change (to_open_mode 0) with OpenRead.
+  intros Hne. unfold open_file. destruct name as [|c0 name']; [congruence|]. set (name := c0 :: name').
+  change (to_open_mode 0) with OpenRead.
   change (has OpenRead OpenCreateExcl) with false. change (has OpenRead OpenCreate) with false.
   change (has OpenRead OpenTruncate) with false. change (has OpenRead OpenAppend) with false.
-  change (has OpenRead OpenWrite) with false. cbv iota zeta beta. cbn [andb negb].
+  change (has OpenRead OpenWrite) with false. cbv iota zeta beta. cbn [andb negb orb].
   rewrite andb_false_r. cbv iota. reflexivity.
 Qed.
 
@@ -627,9 +631,9 @@ Theorem step_read_file (s : fsys) (sv : sview) (cs : list str) :
   step_hyps s sv -> path_ok s sv SlEval cs ->
   proj_res Linux (read_file s (sv_view sv) (abs_path cs)) = go_read_file s sv (abs_path cs).
 Proof.
-  intros H Hp. pose proof (resolve s sv SlEval cs H Hp) as R. destruct Hp as (_ & _ & _ & Hnf).
+  intros H Hp. pose proof (resolve s sv SlEval cs H Hp) as R. destruct Hp as (_ & _ & Hnf & _).
   pose proof (resolve_nosym s sv SlEval cs) as Hns.
-  unfold read_file, go_read_file. rewrite open_rdonly. cbv zeta.
+  unfold read_file, go_read_file. rewrite (open_rdonly _ _ _ _ _ (abs_path_nonempty cs)). cbv zeta.
   unfold k_open. change (decode_flags 0) with (OF 0 false false false false). cbv iota beta zeta.
   change (negb (N.eqb (N.land (acc_mask 0 false) 2) 0)) with false. change (acc_mask 0 false) with 4%N. cbn [andb negb].
   change (follow_of SlEval) with true in R. change (precise_of SlEval) with true in R.
@@ -699,9 +703,9 @@ Theorem step_read_dir (s : fsys) (sv : sview) (cs : list str) :
   step_hyps s sv -> path_ok s sv SlEval cs -> ptr_valid (f_heap s) ->
   obs_sim (proj_res Linux (read_dir s (sv_view sv) (abs_path cs))) (go_read_dir s sv (abs_path cs)).
 Proof.
-  intros H Hp Hpv. pose proof (resolve s sv SlEval cs H Hp) as R. destruct Hp as (_ & _ & _ & Hnf).
+  intros H Hp Hpv. pose proof (resolve s sv SlEval cs H Hp) as R. destruct Hp as (_ & _ & Hnf & _).
   pose proof (resolve_nosym s sv SlEval cs) as Hns.
-  unfold read_dir, go_read_dir. rewrite open_rdonly. cbv zeta.
+  unfold read_dir, go_read_dir. rewrite (open_rdonly _ _ _ _ _ (abs_path_nonempty cs)). cbv zeta.
   unfold k_open. change (decode_flags 0) with (OF 0 false false false false). cbv iota beta zeta.
   change (negb (N.eqb (N.land (acc_mask 0 false) 2) 0)) with false. change (acc_mask 0 false) with 4%N. cbn [andb negb].
   change (follow_of SlEval) with true in R. change (precise_of SlEval) with true in R.
@@ -1023,7 +1027,10 @@ Module StepExamples.
   Example tree_step_hyps : step_hyps tree_fs (sv_of adminv).
   Proof. split; [reflexivity|reflexivity|exact tree_wf|exact tree_links_clean|reflexivity]. Qed.
 
-  Ltac path_ok_tac := split; [good_tac|split; [vm_compute; discriminate|split; vm_compute; discriminate]].
+  Ltac path_ok_tac :=
+    split; [good_tac|split; [vm_compute; discriminate|split; [vm_compute; discriminate|]]];
+    let Hs := fresh "Hs" in let He := fresh "He" in
+    intros (Hs & He & _); first [discriminate Hs | vm_compute in He; discriminate He].
 
   (* Lstat of a link to ".."; Stat through an absolute link; Readlink; Mkdir below a directory reached through
      "../../d"; Remove of a dangling link *)
